@@ -104,6 +104,12 @@ impl TypeChecker {
         // prevent peaks in memory residency
         let mut counter = 0;
         while let Some(value) = result_values.pop_front() {
+            #[cfg(smlxl_storage_layout_extractor_verif)]
+            crate::verif::emit(|| crate::verif::Event::LoopIter {
+                site:  "tc.lift",
+                index: counter,
+            });
+
             // If we have been told to stop, stop and return an error.
             if counter % polling_interval == 0 && self.watchdog.should_stop() {
                 Err(Error::StoppedByWatchdog).locate(value.instruction_pointer())?;
@@ -143,6 +149,12 @@ impl TypeChecker {
         // and prevent peaks in memory residency
         let mut counter = 0;
         while let Some(value) = values.pop_front() {
+            #[cfg(smlxl_storage_layout_extractor_verif)]
+            crate::verif::emit(|| crate::verif::Event::LoopIter {
+                site:  "tc.assign_vars",
+                index: counter,
+            });
+
             // If we have been told to stop, stop and return an error
             if counter % polling_interval == 0 && self.watchdog.should_stop() {
                 Err(Error::StoppedByWatchdog).locate(value.instruction_pointer())?;
@@ -172,6 +184,12 @@ impl TypeChecker {
         let polling_interval = self.watchdog.poll_every();
 
         for (counter, value) in values.into_iter().enumerate() {
+            #[cfg(smlxl_storage_layout_extractor_verif)]
+            crate::verif::emit(|| crate::verif::Event::LoopIter {
+                site:  "tc.infer",
+                index: counter,
+            });
+
             // If we have been told to stop, stop and return an error.
             if counter % polling_interval == 0 && self.watchdog.should_stop() {
                 Err(Error::StoppedByWatchdog).locate(value.instruction_pointer())?;
@@ -216,6 +234,12 @@ impl TypeChecker {
         let polling_interval = self.watchdog.poll_every();
 
         for (count, slot) in constant_storage_slots.into_iter().enumerate() {
+            #[cfg(smlxl_storage_layout_extractor_verif)]
+            crate::verif::emit(|| crate::verif::Event::LoopIter {
+                site:  "tc.layout",
+                index: count,
+            });
+
             // If we have been told to stop, stop and return an error
             if count % polling_interval == 0 && self.watchdog.should_stop() {
                 Err(Error::StoppedByWatchdog).locate(slot.instruction_pointer())?;
